@@ -132,7 +132,9 @@ def run(tier, seed):
     for i, (src, steps) in enumerate(sc):
         chk.note_case(steps, c01.nontrivial(steps) and any(s["a"] == "solve" for s in steps))
         v = verdicts[i]
-        if v["verdict"] != "ok":
+        if v["verdict"].endswith("Z3TimeLimit"):
+            chk.extra["inconclusive_z3_time_limit"] = chk.extra.get("inconclusive_z3_time_limit", 0) + 1
+        elif v["verdict"] != "ok":
             chk.violation({"clause": v["verdict"], "route": "z3-session"},
                           f"event {v['k']} of session rejected: {v['verdict']}",
                           {"source": src, "steps": steps, "rejected_event": traces[i]["events"][v["k"] - 1],
